@@ -92,8 +92,11 @@ where
         .rev()
         .find_map(|&(option, state)| (option == Portable).then_some(state))
         == Some(On);
+    // `std::env::vars` panics on a name or value that is not valid Unicode.
+    // The shell cannot represent such a variable, so it is not imported.
     env.variables.extend_env(
-        std::env::vars()
+        std::env::vars_os()
+            .filter_map(|(name, value)| Some((name.into_string().ok()?, value.into_string().ok()?)))
             .filter(|(name, _)| !portable || yash_env::variable::is_portable_variable_name(name)),
     );
 
